@@ -590,6 +590,11 @@ func (vfs *MemFS) OpenFile(name string, flag int, perm fs.FileMode) (avfs.File, 
 		return (*MemFile)(nil), &fs.PathError{Op: op, Path: name, Err: err}
 	}
 
+	if err == vfs.err.FileExists {
+		// Chdir on the file makes the directory itself current, not a symbolic link it was opened through.
+		absName = pi.Path()
+	}
+
 	if vfs.isNotExist(err) {
 		if om&avfs.OpenCreate == 0 {
 			return (*MemFile)(nil), &fs.PathError{Op: op, Path: name, Err: err}
